@@ -23,6 +23,20 @@ CHECKS = {
         "DESIGN.md §6 C14"),
 }
 
+CHECKS["C02"] = (
+    "Rocq proof by invariant over all operation sequences (single use, binding, replay revocation) + vm_compute correspondence of the session model with the real token endpoints",
+    "Theorems (Props/C02.v, closed under the global context) over Model/Session.v: for every configuration, every history before the "
+    "authorization response and EVERY operation sequence after it (parse and process are separate operations, so every interleaving of "
+    "any number of concurrent redemptions is covered) a code is exchanged at most once (C02_single_use); an exchange implies the issuing "
+    "client, the original redirect_uri, an unexpired/unrevoked/unused code and a live grant (C02_bound); an OIDC replay revokes everything "
+    "minted from the code (C02_oidc_replay_revokes); no operation ever un-uses or un-revokes a token (C02_monotone). The hand-written "
+    "model is compared with the real OIDC and OAuth2 providers on every run: outcome of every operation and the whole session state "
+    "(every grant and token field) of exhaustive 2- and 3-way parse/process interleavings and random histories; an independent oracle "
+    "counts exchanges per code and probes derived tokens after replays.",
+    LEVEL_NOTE_COMMON + "Token values are abstracted to minting-order identifiers (byte-level formats: C04); client authentication assumed "
+    "to succeed for the authenticating client (C01); real thread pre-emption inside one API call is outside property and model.",
+    "DESIGN.md §6 C02")
+
 NOT_YET = "not claimed in this snapshot: its model/theorems/driver are not built yet (DESIGN.md §9 build order); no check is registered rather than a weaker technique"
 
 
